@@ -73,3 +73,14 @@ Theorem C04_yield_increases : forall c m c' outs,
   ca_claim c m = (c', outs) -> c_ann c' = c_ann c \/ (c_ann c' = c_ann c + 1 /\ c_state c' = ca_state_WAIT_VETO).
 Proof. exact yield_increases. Qed.
 Print Assumptions C04_yield_increases.
+
+From J1939 Require Import SkelDefs FlowDefs.
+From J1939.gen Require Import SkelGen.
+From J1939P Require Import FlowProofs OrderProofs.
+
+(* the claim state and address are committed before the claim / cannot-claim frame is handed to the bus (generated
+   skeleton of _process_claim_async and _process_addressclaim): a contending claim or veto that is handled before the send
+   returns meets the state it answers to *)
+Theorem C04_claim_state_before_frame : never_commits_after_send order_ca.
+Proof. exact order_ca_ok. Qed.
+Print Assumptions C04_claim_state_before_frame.
